@@ -105,9 +105,11 @@ def build_obligation(inst):
         sum_op, prod_op = getattr(ops, graph["sum_op"]), getattr(ops, graph["prod_op"])
         psize = graph["plate_sizes"]
         arrs, tensors = [], []
+        alias = graph.get("alias", {})
         for i, (vs, ps) in enumerate(graph["factors"]):
             shape = tuple(VAR_SIZE[v] for v in vs) + tuple(psize[p] for p in ps)
-            a = mk.array("f%d" % i, shape, graph["carrier"])
+            # an aliased factor is the SAME array (hence the same cons-hashed Tensor) occurring twice in the list
+            a = arrs[alias[i]] if i in alias else mk.array("f%d" % i, shape, graph["carrier"])
             arrs.append(a)
             inputs = OrderedDict([(v, Bint[VAR_SIZE[v]]) for v in vs] + [(p, Bint[psize[p]]) for p in ps])
             tensors.append(Tensor(a, inputs))
@@ -242,7 +244,8 @@ def worker(inst):
 def _show(g):
     return "factors=%s plates=%s sizes=%s eliminate=%s%s" % (
         ["".join(vs) + "|" + "".join(ps) for vs, ps in g["factors"]], sorted(g["plates"]), g["plate_sizes"], sorted(g["eliminate"]),
-((" split=%s" % sorted(g["split"])) if "split" in g else "") + ((" scales=%s" % g["scales"]) if "scales" in g else ""))
+((" split=%s" % sorted(g["split"])) if "split" in g else "") + ((" scales=%s" % g["scales"]) if "scales" in g else "") +
+        ((" same_tensor=%s" % g["alias"]) if g.get("alias") else ""))
 
 
 def gen_graphs(rng, n, max_factors, max_vars, max_plates, max_psize):
@@ -356,6 +359,9 @@ def instances(tier, seed):
                 out.append(("g", g, rng.choice(["modified", "dynamic"])))
             if rng.random() < 0.4 and (sum_op, prod_op) in (("add", "mul"), ("logaddexp", "add"), ("max", "add")):
                 out.append(("g", dict(g, param_factor=rng.randrange(5)), "param"))
+                kdup = rng.randrange(len(g["factors"]))
+                gd = dict(g, factors=list(g["factors"]) + [g["factors"][kdup]], alias={len(g["factors"]): kdup})
+                out.append(("g", gd, rng.choice(["sum_product", "partial"])))
                 out.append(("g", dict(g, param_factor=rng.randrange(5)), rng.choice(["lazy_factors", "lazy_factors_seq"])))
             if rng.random() < 0.1 and set(g["plates"]) - set(g["eliminate"]):
                 out.append(("g", g, "modified_all"))
